@@ -27,6 +27,29 @@ theorem tup_put_outside (s : TupState) (t : List Char) (h : s.numSet ≥ tupLen)
   | 2 => omega
   | n + 3 => rfl
 
+theorem map_eq_one {α β : Type} (f : α → β) (l : List α) (x : β) (h : l.map f = [x]) : ∃ u, l = [u] ∧ f u = x := by
+  match l, h with
+  | [u], h => exact ⟨u, rfl, by simpa using h⟩
+  | [], h => simp at h
+  | _ :: _ :: _, h => simp at h
+
+theorem map_eq_two {α β : Type} (f : α → β) (l : List α) (x y : β) (h : l.map f = [x, y]) :
+    ∃ u v, l = [u, v] ∧ f u = x ∧ f v = y := by
+  match l, h with
+  | [u, v], h => exact ⟨u, v, rfl, by simpa using h⟩
+  | [], h => simp at h
+  | [_], h => simp at h
+  | _ :: _ :: _ :: _, h => simp at h
+
+theorem map_eq_three {α β : Type} (f : α → β) (l : List α) (x y z : β) (h : l.map f = [x, y, z]) :
+    ∃ u v w, l = [u, v, w] ∧ f u = x ∧ f v = y ∧ f w = z := by
+  match l, h with
+  | [u, v, w], h => exact ⟨u, v, w, rfl, by simpa using h⟩
+  | [], h => simp at h
+  | [_], h => simp at h
+  | [_, _], h => simp at h
+  | _ :: _ :: _ :: _ :: _, h => simp at h
+
 section three
 variable (o : Opts) (t1 t2 t3 : List Char) (a b : Int) (s0 : TupState)
   (h0 : s0.numSet = 0 ∧ s0.card = 0)
